@@ -608,10 +608,65 @@ func isDeferredLiteral(fn *ssa.Function) bool {
 // path from that call to the literal's exit stores a fresh newMulti() into m.
 func flushReplacesMulti(p *kit.Prog, proc *ssa.Function, trySendName string) bool {
 	ok := false
-	for _, lit := range proc.AnonFuncs {
+	for _, lit := range kit.WithAnon(proc) {
 		for _, s := range kit.Calls(lit, trySendName) {
 			arg := kit.Strip(s.Common().Args[1])
 			l, isLoad := arg.(*ssa.UnOp)
+			if !isLoad {
+				// the batch went through a local of an expanded helper (m = c.flushMulti(m, reason))
+				l, isLoad = kit.Root(arg).(*ssa.UnOp)
+			}
+			if pa, isParam := kit.Root(arg).(*ssa.Parameter); isParam && lit != proc {
+				// the literal takes the batch as a parameter and returns the next one: m = flush(m, reason)
+				idx := -1
+				for i, q := range lit.Params {
+					if q == pa {
+						idx = i
+					}
+				}
+				fresh := true
+				kit.Instrs(lit, func(in ssa.Instruction) {
+					if r, isRet := in.(*ssa.Return); isRet {
+						call, isCall := kit.Root(kit.Res(r, 0)).(*ssa.Call)
+						if len(r.Results) != 1 || !isCall || kit.CalleeName(call) != kit.M("region", "", "newMulti") {
+							fresh = false
+						}
+					}
+				})
+				if idx < 0 || !fresh {
+					return false
+				}
+				sites := 0
+				good := true
+				kit.Instrs(proc, func(in ssa.Instruction) {
+					call, isCall := in.(*ssa.Call)
+					if !isCall {
+						return
+					}
+					mc, isMC := kit.Root(call.Call.Value).(*ssa.MakeClosure)
+					if !isMC || mc.Fn != ssa.Value(lit) || idx >= len(call.Call.Args) {
+						return
+					}
+					sites++
+					ld, isLd := kit.Root(call.Call.Args[idx]).(*ssa.UnOp)
+					if !isLd {
+						good = false
+						return
+					}
+					e := kit.PathFrom(call, kit.PathQuery{Stop: func(x ssa.Instruction) bool {
+						st, isSt := x.(*ssa.Store)
+						return isSt && st.Addr == ld.X && kit.Root(st.Val) == ssa.Value(call)
+					}})
+					if e != nil {
+						good = false
+					}
+				})
+				if sites == 0 || !good {
+					return false
+				}
+				ok = true
+				continue
+			}
 			if !isLoad {
 				return false
 			}
@@ -620,7 +675,7 @@ func flushReplacesMulti(p *kit.Prog, proc *ssa.Function, trySendName string) boo
 				if !isSt || st.Addr != l.X {
 					return false
 				}
-				call, isCall := st.Val.(*ssa.Call)
+				call, isCall := kit.Root(st.Val).(*ssa.Call)
 				return isCall && kit.CalleeName(call) == kit.M("region", "", "newMulti")
 			}})
 			if e != nil {
